@@ -380,6 +380,8 @@ func runC15(c *Ctx) {
 		c.crossAsync()
 	}
 	c.M.Case("late-starter")
+	c.lateDerived("C15")
+	c.M.Case("late-starter-2")
 	c.lateStarter()
 	// independent containers used concurrently (each goroutine its own): results as in a sequential run
 	c.M.Case("concurrent-independent")
